@@ -27,6 +27,14 @@ func setupVersionTables(db *sql.DB) error {
 		"CREATE TABLE va(id INTEGER PRIMARY KEY, n INTEGER)", "INSERT INTO va VALUES (1,0)",
 		"CREATE TABLE vb(id INTEGER PRIMARY KEY, n INTEGER)", "INSERT INTO vb VALUES (1,0)",
 		"CREATE TABLE vc(id INTEGER PRIMARY KEY, n INTEGER)", "INSERT INTO vc VALUES (1,0)",
+		// data tables: every committed version v inserts row v into both, so a consistent state has
+		// max(ver) = count = v in both tables
+		"CREATE TABLE t2(ver INTEGER PRIMARY KEY, payload BLOB)",
+		"CREATE TABLE u2(ver INTEGER PRIMARY KEY, payload BLOB)",
+		// a pre-populated table spread over several pages: commit v stamps one pseudo-randomly chosen
+		// row, so old pages keep changing and max(ver) = v in every committed state
+		"CREATE TABLE big(id INTEGER PRIMARY KEY, ver INTEGER, pad BLOB)",
+		"WITH RECURSIVE c(x) AS (SELECT 1 UNION ALL SELECT x+1 FROM c WHERE x < 60) INSERT INTO big SELECT x, 0, zeroblob(300) FROM c",
 	} {
 		if _, err := db.Exec(s); err != nil {
 			return err
@@ -35,7 +43,7 @@ func setupVersionTables(db *sql.DB) error {
 	return nil
 }
 
-type verState struct{ a, b, c int64 }
+type verState struct{ a, b, c, tmax, tcnt, umax, ucnt, bigmax int64 }
 
 func readVersions(path string) (verState, error) {
 	db, err := sql.Open("sqlite", "file:"+path+"?mode=ro")
@@ -44,10 +52,28 @@ func readVersions(path string) (verState, error) {
 	}
 	defer db.Close()
 	var v verState
-	if err := db.QueryRow("SELECT (SELECT n FROM va), (SELECT n FROM vb), (SELECT n FROM vc)").Scan(&v.a, &v.b, &v.c); err != nil {
+	if err := db.QueryRow("SELECT (SELECT n FROM va), (SELECT n FROM vb), (SELECT n FROM vc), "+
+		"(SELECT coalesce(max(ver),0) FROM t2), (SELECT count(*) FROM t2), (SELECT coalesce(max(ver),0) FROM u2), (SELECT count(*) FROM u2), (SELECT coalesce(max(ver),0) FROM big)").
+		Scan(&v.a, &v.b, &v.c, &v.tmax, &v.tcnt, &v.umax, &v.ucnt, &v.bigmax); err != nil {
 		return v, err
 	}
 	return v, nil
+}
+
+func integrityOf(path string) string {
+	db, err := sql.Open("sqlite", "file:"+path+"?mode=ro")
+	if err != nil {
+		return err.Error()
+	}
+	defer db.Close()
+	var msg string
+	if err := db.QueryRow("PRAGMA integrity_check").Scan(&msg); err != nil {
+		return err.Error()
+	}
+	if len(msg) > 200 {
+		msg = msg[:200]
+	}
+	return msg
 }
 
 func replicaTXIDs(replicaDir string) (all []uint64, l0 []uint64) {
@@ -89,6 +115,91 @@ func copyTree(src, dst string, skip func(rel string) bool) error {
 		}
 		return copyFile(p, filepath.Join(dst, rel))
 	})
+}
+
+// one application transaction of version ?: three version tables and two data tables on different pages
+var versionedTx = []string{"UPDATE va SET n=?1", "INSERT INTO t2(ver, payload) VALUES (?1, randomblob(200))", "UPDATE vb SET n=?1",
+	"UPDATE big SET ver=?1 WHERE id = (?1 * 7) % 60 + 1", "INSERT INTO u2(ver, payload) VALUES (?1, randomblob(300))", "UPDATE vc SET n=?1"}
+
+func commitVersion(db *sql.DB, v int64) error {
+	tx, err := db.Begin()
+	if err != nil {
+		return err
+	}
+	for _, q := range versionedTx {
+		if _, err := tx.Exec(q, v); err != nil {
+			tx.Rollback()
+			return err
+		}
+	}
+	return tx.Commit()
+}
+
+// runC02Preexisting: litestream starts on a database whose WAL is already larger
+// than the sync budget and whose database file has been checkpointed part-way
+// (a reader pinned the WAL), so the first, snapshotting sync and the chunked
+// syncs after it must still produce one committed state per TXID.
+func runC02Preexisting(rc *Recorder, dir string, rng *rand.Rand) error {
+	cfg := Config{PageSize: []int{512, 1024, 4096}[rng.Intn(3)], MinCheckpointPageN: 1000, MaxSyncWALBytes: []int64{1, 2000, 20000}[rng.Intn(3)]}
+	w, err := newWorld(dir, cfg, rng)
+	if err != nil {
+		return err
+	}
+	defer func() { w.closeReader(); w.app.Close() }()
+	if err := setupVersionTables(w.app); err != nil {
+		return err
+	}
+	// move everything so far into the database file: the WAL that litestream will find does not
+	// start at the creation of the database
+	var x, y, z int
+	if err := w.app.QueryRow("PRAGMA wal_checkpoint(TRUNCATE)").Scan(&x, &y, &z); err != nil {
+		return err
+	}
+	total := 6 + rng.Intn(8)
+	pinAt := 2 + rng.Intn(total-3)
+	w.trace = append(w.trace, fmt.Sprintf("C02 pre-existing WAL: %d commits, reader pinned after %d, app PASSIVE checkpoint, then litestream with maxb=%d", total, pinAt, cfg.MaxSyncWALBytes))
+	for v := 1; v <= total; v++ {
+		if err := commitVersion(w.app, int64(v)); err != nil {
+			return err
+		}
+		if v == pinAt {
+			if err := w.appOp(rc, "LR+"); err != nil {
+				return err
+			}
+		}
+	}
+	var a, b, c int
+	if err := w.app.QueryRow("PRAGMA wal_checkpoint(PASSIVE)").Scan(&a, &b, &c); err != nil {
+		return err
+	}
+	if rng.Intn(2) == 0 {
+		w.closeReader()
+	}
+	w.ldb = w.newLitestream()
+	if err := w.ldb.Open(); err != nil {
+		return err
+	}
+	ctx, cancel := context.WithTimeout(ctxb, 120*time.Second)
+	defer cancel()
+	// the first sync round, observed for the model, then catch up
+	if err := w.ldb.Sync(ctx); err != nil { // initialises (page size) and copies the first chunk(s)
+		return err
+	}
+	for i := 0; i < 3; i++ {
+		if err := commitVersion(w.app, int64(total+1+i)); err != nil {
+			return err
+		}
+		w.observeSync(rc, func() error { _, err := w.ldb.VerifSyncStep(ctx, w.cfg.MaxSyncWALBytes); return err })
+		_ = w.ldb.Sync(ctx)
+	}
+	w.closeReader()
+	if err := w.ldb.SyncAndWait(ctx); err == nil {
+		w.ackOracle(rc, "SyncAndWait (pre-existing WAL)")
+	}
+	w.everyTXIDOracle(rc, true)
+	w.closeLitestream(rc)
+	rc.cw.Classes[fmt.Sprintf("c02-preexisting ps=%d maxb=%d", cfg.PageSize, cfg.MaxSyncWALBytes)]++
+	return nil
 }
 
 // everyTXIDOracle evaluates C02's statement on the replica as it stands.
@@ -158,12 +269,18 @@ func (w *World) everyTXIDOracle(rc *Recorder, logical bool) {
 			return
 		}
 		if logical {
+			// every committed state passes SQLite's integrity check; a mixture of commits usually does not
+			if msg := integrityOf(b); msg != "ok" {
+				rc.violate("C02/txid-not-a-committed-state", fmt.Sprintf("TXID %d restores to a database that fails integrity_check: %s", t, msg), w)
+				return
+			}
 			v, err := readVersions(b)
 			if err != nil {
 				continue // before the version tables existed
 			}
-			if v.a != v.b || v.b != v.c || v.a < 0 {
-				rc.violate("C02/txid-not-a-committed-state", fmt.Sprintf("TXID %d: version tables va=%d vb=%d vc=%d", t, v.a, v.b, v.c), w)
+			if v.a != v.b || v.b != v.c || v.a < 0 || v.tmax != v.a || v.tcnt != v.a || v.umax != v.a || v.ucnt != v.a || v.bigmax != v.a {
+				rc.violate("C02/txid-not-a-committed-state", fmt.Sprintf("TXID %d is a mixture of commits: version tables va=%d vb=%d vc=%d, data tables t2 max=%d count=%d, u2 max=%d count=%d, big max=%d",
+					t, v.a, v.b, v.c, v.tmax, v.tcnt, v.umax, v.ucnt, v.bigmax), w)
 				return
 			}
 			if v.a < prev {
@@ -218,13 +335,8 @@ func runC02(rc *Recorder, dir string, rng *rand.Rand, steps int) error {
 				nv = -1
 			}
 			ok := true
-			for _, q := range []string{"UPDATE va SET n=?", "INSERT INTO t(v) VALUES (randomblob(200))", "UPDATE vb SET n=?", "INSERT INTO u(v) VALUES (randomblob(300))", "UPDATE vc SET n=?"} {
-				var err error
-				if q[0] == 'U' {
-					_, err = tx.Exec(q, nv)
-				} else {
-					_, err = tx.Exec(q)
-				}
+			for _, q := range versionedTx {
+				_, err := tx.Exec(q, nv)
 				if err != nil {
 					ok = false
 					break
